@@ -272,7 +272,7 @@ Section Step.
       destruct o as [sid lc h|sid m orc|sid|ms]; cbn [step13_kind] in K0; try (exact (Calm K0)).
       + destruct (find_session (r_clients r) sid); [|exact (Calm K0)].
         destruct m; cbn [msg13] in K0; try (exact (Calm K0)).
-        * destruct K0 as [K0|(y & i & rid & det & Eo & _)]; [exact (Calm K0)|].
+        * destruct K0 as [[K0 _]|(y & i & rid & det & Eo & _)]; [exact (Calm K0)|].
           fold out in Hm0. rewrite Eo in Hm0. destruct Hm0 as [<-|[]]. discriminate Hint.
         * destruct K0 as (_ & _ & [(_ & _ & Ki)|(k0 & inv0 & Hi0 & _ & _ & _ & _ & Ed & Eout)]).
           -- destruct (Ki m0 Hm0 Hint) as (k0 & inv0 & Hi0 & _ & _ & _ & _ & Emsg & Hgone).
@@ -334,7 +334,7 @@ Section Step.
       |[(sid & req & copts & orc & Eop & K1)|[(sid & i & yopts & a & kw & orc & Eop & K1)
       |[(sid & ty & i & det & err & a & kw & orc & Eop & K1)|(ms & Eop & K1)]]]]]; [exact (CalmCase K1)| | | | |].
     - (* CALL *)
-        destruct K1 as [K1|(y & i & rid & det & Eo & Hym & En & Hy & Kind)]; [exact (CalmCase K1)|].
+        destruct K1 as [[K1 _]|(y & i & rid & det & Eo & Hym & En & Hy & Kind)]; [exact (CalmCase K1)|].
         fold d d' in Kind.
         assert (Enew : new = [EIn (OMsg sid (CCall req opts proc args kw) orc); EOut (y, RInvocation i rid det args kw)]).
         { unfold new, step_events. rewrite Eop. fold out. rewrite Eo. reflexivity. }
@@ -357,7 +357,7 @@ Section Step.
              ++ intros Hi'. assert (Hi : cget (d_invs d) k1 = Some inv) by (rewrite Ei, cget_cset_other in Hi' by exact Hn; exact Hi').
                 apply (keep_record _ _ Hi Hi'). intros t dl c Hti Htm.
                 assert (Hold : nget (d_timers d) t = Some (dl, c)).
-                { destruct Ht1 as [(_ & Et)|(t0 & Hti0 & Hfr & Et & _)]; fold d d' in Et; rewrite Et in Htm; [exact Htm|].
+                { destruct Ht1 as [(_ & Et & _)|(t0 & Hti0 & Hfr & Et & _)]; fold d d' in Et; rewrite Et in Htm; [exact Htm|].
                   rewrite nget_nset in Htm. destruct (N.eqb_spec t t0) as [->|]; [|exact Htm]. exfalso.
                   apply Hn. eapply (timer_owner_unique d' k1 inv (y, i) inv1 t0); eauto.
                   rewrite Et, nget_nset, N.eqb_refl. reflexivity. }
